@@ -86,3 +86,22 @@ where
         }
     }
 }
+
+#[cfg(feature = "verif-hooks")]
+impl<K, V> Cache<K, V>
+where
+    K: Hash + Eq + Debug,
+    V: Debug + Clone,
+{
+    /// Verification hook: the cache contents as sorted `key => value` lines.
+    pub fn verif_dump(&self) -> Vec<String> {
+        let data = self.data.lock().unwrap();
+        let mut entries: Vec<String> = data
+            .cache
+            .iter()
+            .map(|(k, v)| format!("{:?} => {:?}", k, v))
+            .collect();
+        entries.sort();
+        entries
+    }
+}
